@@ -16,10 +16,10 @@ func VH_c06_treat_as_withdraw() {
 	r6, _ := bgp.NewIPAddrPrefix(netip.PrefixFrom(netip.AddrFrom16([16]byte{0x20, 0x01, 0xd, 0xb8, vU8("r6")}), 48))
 	u6, _ := bgp.NewIPAddrPrefix(netip.PrefixFrom(netip.AddrFrom16([16]byte{0x20, 0x01, 0xd, 0xb9, vU8("u6")}), 48))
 	reach, _ := bgp.NewPathAttributeMpReachNLRI(bgp.RF_IPv6_UC, []bgp.PathNLRI{{NLRI: r6, ID: 7}}, netip.AddrFrom16([16]byte{0x20, 0x01, 15: 1}))
-	unreach, _ := bgp.NewPathAttributeMpUnreachNLRI(bgp.RF_IPv6_UC, []bgp.PathNLRI{{NLRI: u6}})
+	unreach, _ := bgp.NewPathAttributeMpUnreachNLRI(bgp.RF_IPv6_UC, []bgp.PathNLRI{{NLRI: u6, ID: 9}})
 	nh, _ := bgp.NewPathAttributeNextHop(netip.AddrFrom4([4]byte{10, 0, 0, 1}))
 	attrs := []bgp.PathAttributeInterface{bgp.NewPathAttributeOrigin(0), bgp.NewPathAttributeAsPath([]bgp.AsPathParamInterface{bgp.NewAs4PathParam(bgp.BGP_ASPATH_ATTR_TYPE_SEQ, []uint32{65001})}), nh, reach, unreach}
-	msg := bgp.NewBGPUpdateMessage([]bgp.PathNLRI{{NLRI: w1}}, attrs, []bgp.PathNLRI{{NLRI: n1, ID: 3}, {NLRI: n2}})
+	msg := bgp.NewBGPUpdateMessage([]bgp.PathNLRI{{NLRI: w1, ID: 5}}, attrs, []bgp.PathNLRI{{NLRI: n1, ID: 3}, {NLRI: n2}})
 	taw := vBool("treat_as_withdraw")
 	paths := ProcessMessage(msg, c02srcs[0], time.Unix(1000, 0), taw)
 	vAssert(len(paths) == 5, "the paths produced do not cover every prefix the UPDATE names exactly once")
@@ -38,6 +38,11 @@ func VH_c06_treat_as_withdraw() {
 	}
 	for _, n := range []bgp.NLRI{n1, n2, w1, r6, u6} {
 		vAssert(seen[n] == 1, "a prefix of the UPDATE is missing or duplicated")
+	}
+	// every path keeps the path identifier its NLRI carried (ADD-PATH), also withdrawals
+	ids := map[bgp.NLRI]uint32{n1: 3, n2: 0, w1: 5, r6: 7, u6: 9}
+	for _, p := range paths {
+		vAssert(p.remoteID == ids[p.GetNlri()], "a path (or withdrawal) lost the path identifier its NLRI carried")
 	}
 	vReach("end")
 }
